@@ -444,11 +444,16 @@ def run(ctx: Ctx):
     if ctx.quick:
         consts = dict(MaxE="2", MaxG="2", K="1")
     else:
-        consts = dict(MaxE="2", MaxG="3", K="2")
-    lemma = ["ExplainsIffOutcome"] if (pid == "C02" or not ctx.quick) else []
+        consts = dict(MaxE="2", MaxG="3", K="1")
+    lemma = ["ExplainsIffOutcome"] if (pid == "C02" and ctx.quick) else []
     res = T.run_model("MC_Matching", "MCM_" + pid, consts, invariants=invs + lemma, properties=["InputsUntouched", "StageOrder"],
                       tlc_kwargs=dict(allow_violation=False, timeout=3000))
     ctx.add_tlc(res, "MC_Matching %s" % consts, must_take=["Begin", "DoStage1", "EndStage1", "DoStage2", "Finish"])
+    if not ctx.quick:
+        # the lemma binding the trace acceptance predicate to reachability, on the 2x2 tables with three score levels
+        lem = T.run_model("MC_Matching", "MCM_lemma_" + pid, dict(MaxE="2", MaxG="2", K="2"), invariants=["ExplainsIffOutcome", "ReachedIsOutcome"],
+                          tlc_kwargs=dict(allow_violation=False, timeout=3000))
+        ctx.add_tlc(lem, "MC_Matching lemma ExplainsIffOutcome 2x2 K=2")
     # ---- engines M + R: lattice scenes
     total_groups = 0
     for name, (consts, kinds) in slices(ctx.tier).items():
